@@ -83,6 +83,25 @@ def run_histories(chk, name, histories, modes=('sync', 'async'), nontrivial=None
     return bad
 
 
+def load_corpus(name):
+    """Minimised failing histories of earlier (seeded / pre-fix) runs: they are run first."""
+    import ast
+    import glob
+    import json
+    import os
+    from vt import common
+    out = []
+    for f in sorted(glob.glob(os.path.join(common.CORPUS, name.upper(), '*.json'))):
+        try:
+            cfg, ops = ast.literal_eval(json.load(open(f))['py'])
+        except Exception:
+            continue
+        if name not in XKIND and any(o[0] == 'msg_sd' for o in ops):
+            continue
+        out.append((cfg, [tuple(o) for o in ops]))
+    return out
+
+
 def shrink_history(name, cfg, ops, mode, want_prop, budget=12):
     """Delta-debugging with every round's candidates evaluated in ONE coqc call.
     `want_prop`: keep cases whose code has bit 2 (property) if True, else any non-zero code."""
